@@ -198,6 +198,8 @@ fn main() {
                     // S: valid when the cached pairs are resolved against the honest chain they were learnt from
                     let mut world = served.clone();
                     for (k, _) in &snapshot { if let Some(h) = honest.get(k) { world.insert(k.clone(), h.clone()); } }
+                    // … and so are the certificates the pairs point to: each was validated, with everything below it, when its pair was learnt
+                    for (_, p) in &snapshot { if let Some(h) = honest.get(p) { world.insert(p.clone(), h.clone()); } }
                     if let Err(why) = spec_valid(start, &world, &gv, 2 * served.len() + 6) {
                         sink.sfail(i, "invalid-chain", &format!("client accepted although the certificates are not a valid chain: {}", why), &req);
                     }
@@ -257,6 +259,14 @@ fn main() {
                     run(&mut sink, "forged-hash-field", &certs[0], &s);
                 }
             }
+            // the certificate downloaded AFTER a cache hit (`ToDownload`) is not compared with the requested hash: the request for
+            // the genesis hash (the first one the warm walk makes) is answered with the head of ANOTHER valid chain, served whole
+            {
+                let mut s = honest.clone();
+                for ac in &adv.certificates_chained { s.entry(ac.hash.clone()).or_insert(ac.clone()); }
+                s.insert(chain.genesis_certificate().hash.clone(), adv.certificates_chained[0].clone());
+                run(&mut sink, "genesis-request-answered-with-other-chain", &certs[0], &s);
+            }
             // ======== sessions: several verify_chain calls on ONE client / ONE cache, the provider answering
             // differently each time (K: every result and the cache afterwards; S: every accepted start is a valid
             // chain over the hash-consistent certificates ever served) =========================================
@@ -281,13 +291,22 @@ fn main() {
                     }
                 }
                 type Call = (&'static str, Certificate, HashMap<String, Certificate>);
-                let mut sessions: Vec<(&'static str, Vec<Call>)> = vec![];
+                let mut sessions: Vec<(&'static str, Vec<Call>, bool)> = vec![]; // (tag, calls, cache entries expire at once)
                 if let Some((f, f2, p_alt, p_cert)) = &poison {
                     let mut s1 = honest.clone(); s1.insert(p_cert.hash.clone(), p_alt.clone()); s1.insert(f.hash.clone(), f.clone());
                     let mut s2 = honest.clone(); s2.insert(f.hash.clone(), f.clone()); s2.insert(f2.hash.clone(), f2.clone());
-                    sessions.push(("session-poison", vec![("rejected-head", f.clone(), s1.clone()), ("chained-to-head", f2.clone(), s2.clone())]));
-                    sessions.push(("session-poison-then-honest", vec![("rejected-head", f.clone(), s1.clone()), ("honest", certs[0].clone(), honest.clone()), ("chained-to-head", f2.clone(), s2.clone())]));
-                    sessions.push(("session-honest-poison-direct", vec![("honest", certs[0].clone(), honest.clone()), ("rejected-head", f.clone(), s1), ("head-again", f.clone(), s2.clone()), ("chained-to-head", f2.clone(), s2)]));
+                    sessions.push(("session-poison", vec![("rejected-head", f.clone(), s1.clone()), ("chained-to-head", f2.clone(), s2.clone())], false));
+                    sessions.push(("session-poison-then-honest", vec![("rejected-head", f.clone(), s1.clone()), ("honest", certs[0].clone(), honest.clone()), ("chained-to-head", f2.clone(), s2.clone())], false));
+                    sessions.push(("session-honest-poison-direct", vec![("honest", certs[0].clone(), honest.clone()), ("rejected-head", f.clone(), s1), ("head-again", f.clone(), s2.clone()), ("chained-to-head", f2.clone(), s2)], false));
+                }
+                // expiry: after an honest validation, the same chain with the certificate just above the genesis one withheld. A live
+                // cache skips it (accepted); a cache whose entries expire at once has to download it (rejected).
+                {
+                    let mut s = honest.clone();
+                    s.remove(&certs[certs.len() - 2].hash);
+                    let calls: Vec<Call> = vec![("honest", certs[0].clone(), honest.clone()), ("withheld-below-the-cache", certs[0].clone(), s)];
+                    sessions.push(("session-live-cache", calls.clone(), false));
+                    sessions.push(("session-expired-cache", calls, true));
                 }
                 // random sessions of 2-4 calls drawn from honest starts and single tamperings
                 for _ in 0..(if args.thorough() { 12 } else { 4 }) {
@@ -307,15 +326,16 @@ fn main() {
                             }
                         }
                     }
-                    sessions.push(("session-random", calls));
+                    let expired = rng.chance(1, 4);
+                    sessions.push((if expired { "session-random-expired-cache" } else { "session-random" }, calls, expired));
                 }
-                for (tag, calls) in sessions {
+                for (tag, calls, expired) in sessions {
                     if !sink.wanted() { sink.skip(); continue; }
                     // the session starts from a copy of the cache as warmed so far
                     let mut all_keys: Vec<String> = honest.keys().cloned().collect();
                     for (_, st, sv) in &calls { all_keys.push(st.hash.clone()); all_keys.extend(sv.keys().cloned()); }
                     all_keys.sort(); all_keys.dedup();
-                    let sess_cache = Arc::new(MemoryCertificateVerifierCache::new(chrono::TimeDelta::hours(1)));
+                    let sess_cache = Arc::new(MemoryCertificateVerifierCache::new(if expired { chrono::TimeDelta::seconds(-1) } else { chrono::TimeDelta::hours(1) }));
                     let mut snapshot: Vec<(String, String)> = vec![];
                     for k in &all_keys { if let Ok(Some(p)) = rt.block_on(cache.get_previous_hash(k)) { rt.block_on(sess_cache.store_validated_certificate(k, &p)).unwrap(); snapshot.push((k.clone(), p)); } }
                     let mut ids = Ids(BTreeMap::new());
@@ -350,7 +370,7 @@ fn main() {
                         if let Ok(Some(p)) = rt.block_on(sess_cache.get_previous_hash(k)) { dump.push(format!("({},{})", kid, ids.id(&format!("h:{}", p)))); }
                     }
                     let cache_line = snapshot.iter().map(|(k, p)| format!("({},{})", ids.id(&format!("h:{}", k)), ids.id(&format!("h:{}", p)))).collect::<Vec<_>>().join(",");
-                    let req = format!("c03.session cache=[{}] keys={} calls=[{}]", cache_line, hutil::list(&key_ids.iter().map(|x| *x as u64).collect::<Vec<_>>()), call_lines.join(","));
+                    let req = format!("c03.session cache=[{}] keys={} calls=[{}]{}", cache_line, hutil::list(&key_ids.iter().map(|x| *x as u64).collect::<Vec<_>>()), call_lines.join(","), if expired { " expired=1" } else { "" });
                     let i = sink.case(tag, &req, &format!("{} | {}", outs.join(";"), dump.join(",")));
                     for (c, w) in fails { sink.sfail(i, &c, &w, &req); }
                     // the repaired finding, replayed on the real client every run
